@@ -53,25 +53,10 @@ theorem C03_own_reply_partial {W : World} (hW : ReachableYoung W) (retries : Nat
     (h : (call real retries k tok W s).1 = .returned k' t') : k' = k ∧ t' = tok :=
   (call_inv retries k tok W s (C03_reachable_inv hW) hy).2 k' t' h
 
-/-- the history of finding K2: call 1's reply is delivered twice … -/
-def dupWorld : World := (call real 0 .normal 1 (init 0) [.ok, .dup]).2.1
-
-theorem dupWorld_facts : dupWorld.pc = .live ⟨[⟨false, 1, .normal, 1, 1⟩], false⟩ ∧ dupWorld.seq = 1 := by decide
-
 theorem reachable_onewayN (n : Nat) : ∀ W, Reachable W → Reachable (onewayN n W) := by
   induction n with
   | zero => intro W h; exact h
   | succ n ih => intro W h; exact ih _ (.step h 0 .oneway 0 [.ok])
-
-/-- … and `n` delivered oneway calls follow; when `1 + n` is a multiple of 2^16 the next call accepts the duplicate -/
-theorem alias_after (n : Nat) (hn : (1 + n) % seqMod = 0) :
-    (call real 0 .normal 7 (onewayN n dupWorld) [.ok]).1 = .returned .normal 1 := by
-  have hl := onewayN_live n dupWorld _ dupWorld_facts.1 (by rw [dupWorld_facts.2]; decide)
-  refine alias_accepted 7 (onewayN n dupWorld) ⟨false, 1, .normal, 1, 1⟩ [] hl.1 rfl ?_
-  show 1 = ((onewayN n dupWorld).seq + 1) % seqMod
-  rw [hl.2, dupWorld_facts.2]
-  simp only [seqMod] at hn ⊢
-  omega
 
 /-- **Finding K2 (negation of the full statement).**  A 16-bit sequence number repeats after 65536
     sends: if the reply of call 1 is delivered twice and 65535 oneway calls (which read nothing) follow,
@@ -91,15 +76,6 @@ def C03_exec_once_Statement : Prop :=
   ∀ (W : World), Reachable W → ∀ (retries : Nat) (k : Kind) (tok : Nat) (s : List Ev) (k' : Kind) (t' : Nat),
     (call real retries k tok W s).1 = .returned k' t' →
     execs tok (call real retries k tok W s).2.1 = execs tok W + 1
-
-theorem execs_replicate (tok m : Nat) (W W' : World) (h : W'.log = List.replicate m tok ++ W.log) :
-    execs tok W' = execs tok W + m := by
-  unfold execs; rw [h, List.count_append, List.count_replicate_self]; omega
-
-theorem execs_other (tok t m : Nat) (W W' : World) (h : W'.log = List.replicate m tok ++ W.log) (ht : t ≠ tok) :
-    execs t W' = execs t W := by
-  unfold execs; rw [h, List.count_append, List.count_replicate]
-  simp [Ne.symm ht]
 
 /-- **C03_exec_once (partial).**  When the call makes a single attempt — retries disabled, or a call that
     never goes through the retry loop (attribute access, batch, stream fetch) — then: if it returns, its
